@@ -107,8 +107,8 @@ def stage_passes(ctx, n):
             import shutil
             shutil.rmtree(os.path.join(e.tmp, "roots"), ignore_errors=True)
             gf, ga, gb = w.group("gf"), w.group("ga"), w.group("gb")
-            minimum = rng.choice([5, 10])
-            node = w.node("fld", gf, stype="F", min_kib=minimum * 2 ** 20)
+            minimum = rng.choice([5, 10, 10.25, 7.5])        # GiB; not always whole numbers
+            node = w.node("fld", gf, stype="F", min_kib=int(minimum * 2 ** 20))
             a1, a2 = w.node("a1", ga, stype="A"), w.node("a2", gb, stype="A")
             acq = w.acq("acq")
             sizes = {}
@@ -119,7 +119,8 @@ def stage_passes(ctx, n):
                 w.copy(f, a1, has="Y")
                 w.copy(f, a2, has="Y")
                 sizes[f.id] = f.size_b
-            base_free = int((minimum - rng.choice([0.5, 1.5, 2.5, -1])) * GiB)       # -1: already above the minimum
+            # shortfalls of 0.5 / 1.5 / 2.5 GiB; or free space above the minimum by 1 GiB, by half a GiB, or by 600 bytes
+            base_free = int((minimum - rng.choice([0.5, 1.5, 2.5, -1, -0.5])) * GiB) + rng.choice([0, 0, 600])
 
             class SV:
                 def __init__(self, b):
